@@ -253,10 +253,20 @@ def run(ctx):
     # every other call site of the writer/reader primitives anywhere in the crate
     kinds = {v["variant"]: v["kind"] for v in V}
     n = 0
+    # (a private helper that did not exist when the rules were written and passes its own `var` parameter on is judged where it is used: it is
+    #  inlined into its callers, which are visited because they call it)
+    prims = set(WRITERS + tuple(READERS))
+    carriers = set()
+    for _ in range(3):
+        for key, f in fx.bodies():
+            if key in ctx.inline_set and not f.get("reachable") and any(b["term"]["k"] == "call" and (b["term"]["func"]["path"] in prims or b["term"]["func"]["path"] in carriers) for b in f["blocks"]):
+                carriers.add(key)
     for key, f in fx.bodies():
-        if not any(b["term"]["k"] == "call" and b["term"]["func"]["path"] in (WRITERS + tuple(READERS)) for b in f["blocks"]):
+        if not any(b["term"]["k"] == "call" and (b["term"]["func"]["path"] in prims or b["term"]["func"]["path"] in carriers) for b in f["blocks"]):
             continue
         for (c, var, kind, _, e, p) in method_effect(ctx, key):
+            if key in carriers and var is None and mentions(e.args[1], lambda s_: s_[0] == "param"):
+                continue
             n += 1
             want = kinds.get(var)
             okk = want is not None and kind == want and (c != WRITERS[1] or kind == "A")
